@@ -284,6 +284,10 @@ def check(prog, rep):
     from .c13 import normalisation
 
     normalisation(prog, rep)
+    # the transform's own copies (deepcopy of events) separate its output from its input only if Event keeps the default copy protocol
+    from ..rules_own import copy_protocol
+
+    copy_protocol(prog, rep)
 
 
 VARIANTS = [
